@@ -54,22 +54,7 @@ def writer_reader(ctx, g, rd):
     ctx.ob("T4-writer-ranges", wr.name, "ops: 0..=dim x 1..=size; degrees: 0..dim over orbit_reps_2d(i, i+1)", "ok" if okw_ops and okw_ms else "violation",
            "the printer emits operations for all indices and chambers and one degree m(i, i+1, d) per 2-orbit representative" if okw_ops and okw_ms else
            "the printer's loops are not ops over 0..=dim() x 1..=size() and degrees m(i, i+1, d) over 0..dim() x orbit_reps_2d(i, i+1) (ops ok: %s, degrees ok: %s)" % (okw_ops, okw_ms))
-    # emission condition e == 0 || e >= d
-    oke = False
-    for bi, t in wr.calls("fmt::Formatter::<'a>::write_fmt"):
-        for dbb, atoms in [(bi, [atom_norm(a, g) for a in wr.facts_at(bi)])]:
-            pass
-    for h, e, it in loops_in(wr):
-        pass
-    for bi, blk in wr.live_blocks():
-        t = blk["term"]
-        if t["k"] == "switch":
-            d = norm(wr.origin(t["discr"]), g)
-            if d[0] == "binop" and d[1] == "Ge" and contains(d[2], lambda x: isinstance(x, tuple) and x and x[0] == "call" and x[1].endswith("unwrap_or")) and loop_range_of_payload(wr, d[3], g) == R(1, size_w, True):
-                oke = True
-    ctx.ob("T3-writer-emits-upper-images", wr.name, "e == 0 || e >= d", "ok" if oke else "violation",
-           "an image is printed when it is undefined or not smaller than its chamber (each pair once, at its smaller end)" if oke else
-           "the printer's emission condition is not `e == 0 || e >= d` on op(i, d).unwrap_or(0) and the chamber counter: pairs are printed twice or not at all, the parser's first-unassigned discipline no longer matches")
+    # the emission condition itself is decided exactly by printer_table (T4-printer-table)
     # reader ranges
     spec_dim = None
     okr_ops = okr_ms = False
@@ -213,14 +198,29 @@ def acceptance_tables(ctx, g):
                 bad = bad or "image %d in a set of size %d, its own entry %s, the entry being filled %s: the image is %s" % (dv, sz, "free" if ent == 0 else "taken", "free" if cur == 0 else "already defined", "written" if r else "not written")
         # cursors
         ks = []
+        cursors = set()
         for l, nm in b.debug.items():
             if b.local_ty(l) == "usize" and not b.is_stable_local(l):
                 ds_ = [strip(norm(d, g)) for dbb, d in b.all_defs_origins(l)]
                 loc = ("local", l, nm)
                 if len(ds_) == 2 and any(unov_deep(d) == ("binop", "Add", loc, ("int", 1)) for d in ds_):
                     ks.append([eval_int(d) for d in ds_ if eval_int(d) is not None])
+                    cursors.add(l)
         if not bad and ks != [[0], [0]]:
             bad = "the two list cursors are not `k = 0; k += 1`: initial values %s" % ks
+        # left-over entries: the outer loop goes on to its next list exactly when the cursor has reached the end of the current one
+        for (h, e, it) in [lp for lp in loops_in(b) if loop_containing(b, lp[0]) is None]:
+            for kv, lv, want in ((2, 2, True), (1, 2, False), (0, 1, False), (0, 0, True)):
+                def f(y, kv=kv, lv=lv):
+                    y = strip(y)
+                    if y[0] == "local" and y[1] in cursors:
+                        return kv
+                    if y[0] == "call" and y[1].endswith("::len"):
+                        return lv
+                    return None
+                r = bool(reachable_sites(b, g, {h}, f, start=e))
+                if r != want and not bad:
+                    bad = "a list of %d entries of which %d were used: parsing %s" % (lv, kv, "goes on" if r else "stops with an error")
     ctx.ob("T4-acceptance", b.name, "operation images / cursors", "ok" if not bad else "violation", "image written iff 1 <= di <= size, its entry free, at a free entry; cursors from 0 by 1" if not bad else bad)
     # degrees
     bad = None
@@ -262,13 +262,190 @@ def acceptance_tables(ctx, g):
     ctx.ob("T4-acceptance", b.name, "degrees", "ok" if not bad else "violation", "stored iff v(i, i + 1, d) == Some(0) and m % r == 0, as m / r with r = r(i, i + 1, d)" if not bad else bad)
 
 
+def grammar_assembly(ctx, g):
+    """the grammar reads `< counts : extents : lists : lists >` in this order and its map closure puts the first number of `extents` into
+    `size`, the second into `dim`, the first group of lists into `op_spec`, the second into `m_spec` - the order Display writes them in.
+    Exchanging two components type-checks (all are usize / Vec<Vec<usize>>) and only shows for symbols with size != dim or on the lists."""
+    ctx.clauses.append("grammar assembly: `<` counts `:` extents `:` op lists `:` degree lists `>`; size, dim, op_spec, m_spec taken from components 3.0, 3.1, 5, 7 (T4)")
+    b = ctx.body("parse_dsym::dsymbol")
+    ctx.scan([b])
+    bad = None
+    seq = None
+    for bi, t in b.calls("nom::sequence::tuple"):
+        a = strip(norm(b.origin(t["args"][0]), g))
+        if a[0] == "agg" and len(a[2]) == 9:
+            seq = [strip(x) for x in a[2]]
+    if seq is None:
+        bad = "the nine-part sequence of the grammar was not found"
+    else:
+        def sep(x):
+            cs = [eval_int(y[2][0]) for y in subterms(x) if isinstance(y, tuple) and y and y[0] == "call" and y[1].endswith("complete::char")]
+            return chr(cs[0]) if len(cs) == 1 and cs[0] is not None else None
+        got = [sep(x) if k % 2 == 0 else (x[1] if x[0] == "fn" else None) for k, x in enumerate(seq)]
+        want = ["<", "parse_dsym::counts", ":", "parse_dsym::extents", ":", "parse_dsym::int_lists", ":", "parse_dsym::int_lists", ">"]
+        if got != want:
+            bad = "the grammar reads %s, not %s" % (" ".join(str(x).replace("parse_dsym::", "") for x in got), " ".join(x.replace("parse_dsym::", "") for x in want))
+    cl = [c for c in ctx.facts.closures.get("parse_dsym::dsymbol", [])]
+    adt = ctx.facts.adts.get("parse_dsym::DSymSpec")
+    if not bad and (len(cl) != 1 or adt is None):
+        bad = "the map closure of the grammar / DSymSpec was not found"
+    elif not bad:
+        r = strip(norm(ctx.facts.bodies[cl[0]].local_origin(0), g))
+        names = [f["name"] for f in adt["variants"][0]["fields"]]
+        if not (r[0] == "agg" and r[1].endswith("DSymSpec") and len(r[2]) == len(names)):
+            bad = "the map closure does not build a DSymSpec directly"
+        else:
+            def comp(t):
+                path = []
+                t = strip(t)
+                while t[0] == "field":
+                    path.append(str(t[2]))
+                    t = strip(t[1])
+                return ".".join(reversed(path)) if t[0] == "param" else None
+            flow = {n: comp(x) for n, x in zip(names, r[2])}
+            want = {"size": "3.0", "dim": "3.1", "op_spec": "5", "m_spec": "7"}
+            for n, w in want.items():
+                if flow.get(n) != w:
+                    bad = bad or "DSymSpec.%s is taken from component %s of the parsed sequence (expected %s)" % (n, flow.get(n), w)
+    ctx.ob("T4-grammar-assembly", b.name, "sequence and field flows", "ok" if not bad else "violation",
+           "`<` counts `:` extents `:` lists `:` lists `>`; size <- 3.0, dim <- 3.1, op_spec <- 5, m_spec <- 7" if not bad else bad)
+
+
+def printer_table(ctx, g):
+    """what Display writes, as a decision table over (i, d, e = op(i, d)) - nothing is run: within one pass of the operation loops a `,` is written
+    exactly for i > 0, an image exactly when e >= d (complete symbols: e >= 1), preceded by a blank exactly for d > 1, and the value written is
+    e itself; in the degree loops a `,` exactly for i > 0, a blank exactly for d > 1, the value m(i, i + 1, d) for every representative; the
+    size-only header is written exactly for dimension 2.  FromStr consumes one image per still-unassigned (i, d) in the same order, so any
+    other emission condition prints a pair twice or not at all."""
+    ctx.clauses.append("Display decision table: `,` iff i > 0, image iff e >= d, blank iff d > 1, one degree per representative, size-only header iff dim == 2 (T4, path conditions evaluated)")
+    wr = ctx.body("dsets::DSet::fmt")
+    me = ("param", 1, wr.debug.get(1, ""))
+    writes = []
+    for bi, t in wr.calls("fmt::Formatter::<'a>::write_fmt"):
+        a = strip(norm(wr.origin(t["args"][1]), g))
+        lit = None
+        shown = []
+        if a[0] == "call" and a[1].endswith("::from_str") and a[2] and a[2][0][0] == "str":
+            lit = a[2][0][1]
+        else:
+            shown = [strip(y[2][0]) for y in subterms(a) if isinstance(y, tuple) and y and y[0] == "call" and y[1].endswith("new_display")]
+        writes.append((bi, lit, shown))
+    def outer_header(bi):
+        best = None
+        for h, e, it in loops_in(wr):
+            if bi in loop_body(wr, h, e) and (best is None or best[0] in loop_body(wr, h, e) and best[0] != h):
+                best = (h, e, it)
+        return best
+    def payload(it):
+        return ("field", ("variant", ("call", "std::iter::Iterator::next", (("local", it, wr.debug.get(it, "")),)), "Some"), "0")
+    def is_payload(y):
+        return y[0] == "field" and y[1][0] == "variant" and y[1][2] == "Some" and y[1][1][0] == "call" and y[1][1][1].endswith("Iterator::next")
+    def reach(bi, env_of):
+        lp = outer_header(bi)
+        if lp is None:
+            return None
+        def f(y):
+            y = unov_deep(strip(y))
+            return env_of(y)
+        return bool(reachable_sites(wr, g, {bi}, f, start=lp[1]))
+    bad = None
+    # image write: shows unwrap_or(op(self, i, d), 0)
+    img = [(bi, sh[0]) for bi, lit, sh in writes if len(sh) == 1 and is_call(sh[0], "unwrap_or") and is_call(strip(sh[0][2][0]), "DSet::op")]
+    deg = [(bi, sh[0]) for bi, lit, sh in writes if len(sh) == 1 and is_call(sh[0], "unwrap_or") and is_call(strip(sh[0][2][0]), "DSet::m")]
+    if len(img) != 1 or len(deg) != 1:
+        bad = "%d image writes and %d degree writes (one each expected)" % (len(img), len(deg))
+    else:
+        ib, e_t = img[0]
+        opc = strip(e_t[2][0])
+        i_t, d_t = strip(opc[2][1]), strip(opc[2][2])
+        e_u = unov_deep(e_t)
+        def env1(iv, dv, ev):
+            def f(y):
+                if y == unov_deep(i_t):
+                    return iv
+                if y == unov_deep(d_t):
+                    return dv
+                if y == e_u:
+                    return ev
+                return None
+            return f
+        lpi = outer_header(ib)
+        in_ops = loop_body(wr, lpi[0], lpi[1]) if lpi else set()
+        commas = [bi for bi, lit, sh in writes if lit == "," and bi in in_ops]
+        blanks = [bi for bi, lit, sh in writes if lit == " " and bi in in_ops]
+        if len(commas) != 1 or len(blanks) != 1:
+            bad = "operation lists: %d `,` writes and %d blank writes (one each expected)" % (len(commas), len(blanks))
+        else:
+            for iv, dv, ev in ((0, 1, 1), (0, 1, 2), (1, 2, 1), (1, 2, 3), (2, 2, 2), (0, 3, 2), (2, 3, 3), (1, 1, 4), (0, 4, 1)):
+                r = reach(ib, env1(iv, dv, ev))
+                if r != (ev >= dv):
+                    bad = bad or "operation %d, chamber %d with image %d: the image is %s" % (iv, dv, ev, "written" if r else "not written")
+                r = reach(blanks[0], env1(iv, dv, ev))
+                if r != (ev >= dv and dv > 1):
+                    bad = bad or "operation %d, chamber %d with image %d: a blank is %s" % (iv, dv, ev, "written" if r else "not written")
+                r = reach(commas[0], env1(iv, dv, ev))
+                if r != (iv > 0):
+                    bad = bad or "operation list %d: a `,` is %s before it" % (iv, "written" if r else "not written")
+        # degree lists
+        db, m_t = deg[0]
+        mc = strip(m_t[2][0])
+        mi_t, md_t = strip(mc[2][1]), strip(mc[2][3])
+        def env2(iv, dv):
+            def f(y):
+                if y == unov_deep(mi_t):
+                    return iv
+                if y == unov_deep(md_t):
+                    return dv
+                return None
+            return f
+        lpd = outer_header(db)
+        in_deg = loop_body(wr, lpd[0], lpd[1]) if lpd else set()
+        commas = [bi for bi, lit, sh in writes if lit == "," and bi in in_deg]
+        blanks = [bi for bi, lit, sh in writes if lit == " " and bi in in_deg]
+        if not bad and (len(commas) != 1 or len(blanks) != 1):
+            bad = "degree lists: %d `,` writes and %d blank writes (one each expected)" % (len(commas), len(blanks))
+        elif not bad:
+            for iv, dv in ((0, 1), (0, 2), (1, 1), (1, 3), (2, 2)):
+                if not reach(db, env2(iv, dv)):
+                    bad = bad or "degree list %d, representative %d: no degree is written" % (iv, dv)
+                r = reach(blanks[0], env2(iv, dv))
+                if r != (dv > 1):
+                    bad = bad or "degree list %d, representative %d: a blank is %s" % (iv, dv, "written" if r else "not written")
+                r = reach(commas[0], env2(iv, dv))
+                if r != (iv > 0):
+                    bad = bad or "degree list %d: a `,` is %s before it" % (iv, "written" if r else "not written")
+        # separators between the sections and the closing bracket are outside the loops and unconditional
+        for ch in (":", ">"):
+            ws_ = [bi for bi, lit, sh in writes if lit == ch]
+            if not bad and (len(ws_) != 1 or loop_containing(wr, ws_[0]) is not None):
+                bad = "the `%s` after the %s is not written exactly once outside the loops" % (ch, "operation lists" if ch == ":" else "degree lists")
+        # header: size only iff dim == 2
+        dim_w, size_w = ("call", "dsets::DSet::dim", (me,)), ("call", "dsets::DSet::size", (me,))
+        h1 = [bi for bi, lit, sh in writes if sh == [size_w]]
+        h2 = [bi for bi, lit, sh in writes if sh == [size_w, dim_w]]
+        if not bad and (len(h1) != 1 or len(h2) != 1):
+            bad = "header writes: %d showing the size only, %d showing size and dimension (one each expected)" % (len(h1), len(h2))
+        elif not bad:
+            for dv in (1, 2, 3, 4):
+                def f(y, dv=dv):
+                    return dv if strip(y) == dim_w else None
+                r1, r2 = bool(reachable_sites(wr, g, {h1[0]}, f)), bool(reachable_sites(wr, g, {h2[0]}, f))
+                if (r1, r2) != (dv == 2, dv != 2):
+                    bad = bad or "dimension %d: the header is written %s" % (dv, "without the dimension" if r1 and not r2 else "with the dimension" if r2 and not r1 else "in both forms" if r1 else "not at all")
+    ctx.ob("T4-printer-table", wr.name, "separators / emission / header", "ok" if not bad else "violation",
+           "`,` iff i > 0; image iff e >= d, blank iff d > 1; one degree per representative; size-only header iff dim == 2" if not bad else bad)
+
+
 def run(ctx):
     g = ctx.facts.getters()
     # Display prints m = r * v of every adjacent index pair at the orbit representatives: a range guard in r / v that rejects an in-range
     # query (`i > size()` for `i > dim()`) prints 0 there and the text no longer parses back to an equal symbol (shared rule, see C02)
     from . import c02
     c02.none_outside_ranges(ctx, g)
+    c02.walk_closing(ctx, g)
     acceptance_tables(ctx, g)
+    printer_table(ctx, g)
+    grammar_assembly(ctx, g)
     body = ctx.body(ENTRY)
     reach = ctx.facts.reachable(ENTRY)
     ctx.scan(ctx.facts.bodies[d] for d in reach)
